@@ -53,21 +53,8 @@ def run(ctx):
     # an acquisition beyond 4 GiB (microscopy data is that large): the model's offsets are unbounded naturals, the writer's are a
     # C integer type — 17 appends of one 256 MiB frame and 3 of a 1.5 GiB frame, with the writes intercepted (nothing is stored):
     # every write must be aimed at the number of bytes appended so far
-    import os
-    from . import common as C
-    tmp = os.path.join(C.BUILD, "tmp-storage")
-    for script in ("new raw\nset f:big -\nstart\nbig 268435456 17\nstop\nclose\n", "new raw\nset p:big2 -\nstart\nbig 1610612736 3\nbig 268435456 2\nstop\nclose\n"):
-        rc, out, err = C.run_lines(exe, script, timeout=120, args=[tmp, "60000"])
-        bad = [l for l in out if l.startswith("ORACLE") or l.startswith("CRASH") or l.startswith("big err")]
-        okl = [l for l in out if l.startswith("big ok")]
-        ctx.cov.setdefault("large_file_runs", []).append({"script": script.split("\n")[3:5], "result": (bad or okl or out[-2:])[:3]})
-        if bad or not okl:
-            if any("skipped-no-memory" in l for l in out):
-                ctx.notes.append("large-file run skipped: no memory for a 1.5 GiB packet")
-                continue
-            ctx.violation("oracle", "h_storage_io:" + (bad[0].split()[1] if bad and len(bad[0].split()) > 1 else "large-file-run-failed"),
-                          "raw writer beyond 4 GiB: %s" % (bad[0] if bad else " | ".join(out[-3:]))[:300],
-                          {"script": script.split("\n"), "how": "feed the script to .build/<tag>/h_storage_io/h_storage_io <tmpdir> 60000"})
+    S.large_file_runs(ctx, exe, ("new raw\nset f:big -\nstart\nbig 268435456 17\nstop\nclose\n",
+                                  "new raw\nset p:big2 -\nstart\nbig 1610612736 3\nbig 268435456 2\nstop\nclose\n"), "raw writer")
 
 
 def replay(ctx, path):
